@@ -181,6 +181,14 @@ def arm_env(ctx, fn, arm, ctxname, outer_env=None, variant=None):
             else:
                 env[nm] = ("unknown", "vec %s not understood" % nm)
             continue
+        # `let part = quote! { .. };` - a sub-template interpolated later
+        sub = quote_sites(ctx, init)
+        if len(sub) == 1 and sub[0]["template"]["form"] in ("expr", "block") and init.get("exp") and "m:quote" in init["exp"]:
+            fr = TemplateFront({k: v for k, v in env.items() if k != "__base__"})
+            tt = fr.term(sub[0]["template"]["ast"])
+            if not fr.problems:
+                env[nm] = tt
+                continue
         # pure conversions / wrappers of a child: provenance = the child it mentions
         locs = [x for x in walk(init) if kind(x) == "Path" and x.get("res") == "local" and isinstance(env.get(x["name"]), tuple)
                 and env[x["name"]][0] == "child"]
@@ -229,6 +237,15 @@ def gen_arm_terms(ctx, fnpath, ctxname):
                 do_arm(a2, "%s/%s" % (key, sub), e2, pv[0] if pv else None)
             return
         ts = quote_sites(ctx, arm["body"])
+        if len(ts) > 1:
+            # sub-templates bound by `let x = quote!{..}` are interpolated into the arm's final template
+            body = arm["body"]
+            bound = set()
+            for st in (body.get("stmts", []) if kind(body) == "Block" else []):
+                if st.get("k") == "Let" and st.get("init") is not None:
+                    for q in quote_sites(ctx, st["init"]):
+                        bound.add((q["line"], q["col"]))
+            ts = [q for q in ts if (q["line"], q["col"]) not in bound]
         if len(ts) != 1:
             out[key] = (None, None, ["%d quote! templates in arm (expected 1)" % len(ts)])
             return
